@@ -355,6 +355,18 @@ func c08Eval(r *harness.Run, entries []c08Entry, scope string, opt bool, sw map[
 	} else if tight := comp.Compile(tightLayout(src), o); tight.Err != nil || tight.Panic != "" || tight.Out != res.Out {
 		fail("C08:tight-layout", fmt.Sprintf("the statement written without dispensable white space gives another result (%v %s): %s", tight.Err, firstLine(tight.Panic), firstDiff(tight.Out, res.Out)))
 	}
+	// ... and written on one source line and compiled with line markers (with a path): apart from the marker lines the same output
+	size := len(entries)
+	for _, e := range entries {
+		size += len(e.table)
+	}
+	if opt && size <= 4 { // (statements with up to 4 header and table entries in all: enough for any two entries to share a line)
+		om := o
+		om.LineMarkers, om.Path = true, "data/maps/M/scripts.pory"
+		if one := comp.Compile(oneLine(src), om); one.Err != nil || one.Panic != "" || dropMarkerLines(one.Out) != res.Out {
+			fail("C08:one-line-with-markers", fmt.Sprintf("the statement written on one line and compiled with line markers gives another result (%v %s): %s", one.Err, firstLine(one.Panic), firstDiff(dropMarkerLines(one.Out), res.Out)))
+		}
+	}
 	// the labels that label-form entries name may be label statements of a script of the same file (alternately plain and
 	// global): naming a label is not defining it, so the file is accepted and the statement's output stays as it is
 	if opt && len(refs) > 0 {
